@@ -1185,7 +1185,9 @@ func (st *Runtime) evalAdditiveExpression(node *AdditiveExprNode) reflect.Value 
 			}
 			// converts []byte (and alias types of []byte) to string
 			if right.Kind() == reflect.Slice && right.Type().Elem().Kind() == reflect.Uint8 {
-				right = right.Convert(left.Type())
+				if converted, ok := convertTo(right, left.Type()); ok {
+					right = converted
+				}
 			}
 			left = reflect.ValueOf(left.String() + fmt.Sprint(right))
 		} else {
@@ -1412,10 +1414,11 @@ func (st *Runtime) evaluateArgs(fnType reflect.Type, args CallArgs, pipedArg *re
 			return nil, fmt.Errorf("piped first argument for %s is not a valid value", fnType)
 		}
 		if !(*pipedArg).Type().AssignableTo(in) {
-			if !(*pipedArg).Type().ConvertibleTo(in) {
+			converted, ok := convertTo(*pipedArg, in)
+			if !ok {
 				return nil, fmt.Errorf("piped first argument for %s is of type %s, which can't be used as %s", fnType, (*pipedArg).Type(), in)
 			}
-			*pipedArg = (*pipedArg).Convert(in)
+			*pipedArg = converted
 		}
 		argValues[slot] = *pipedArg
 		slot++
@@ -1438,10 +1441,11 @@ func (st *Runtime) evaluateArgs(fnType reflect.Type, args CallArgs, pipedArg *re
 			return nil, fmt.Errorf("argument for position %d in %s is not a valid value", slot, fnType)
 		}
 		if !term.Type().AssignableTo(in) {
-			if !term.Type().ConvertibleTo(in) {
+			converted, ok := convertTo(term, in)
+			if !ok {
 				return nil, fmt.Errorf("argument for position %d in %s is of type %s, which can't be used as %s", slot, fnType, term.Type(), in)
 			}
-			term = term.Convert(in)
+			term = converted
 		}
 		argValues[slot] = term
 		i++
@@ -1464,10 +1468,11 @@ func (st *Runtime) evaluateArgs(fnType reflect.Type, args CallArgs, pipedArg *re
 				return nil, fmt.Errorf("argument for position %d in %s is not a valid value", slot, fnType)
 			}
 			if !term.Type().AssignableTo(in) {
-				if !term.Type().ConvertibleTo(in) {
+				converted, ok := convertTo(term, in)
+				if !ok {
 					return nil, fmt.Errorf("argument for position %d in %s is of type %s, which can't be used as %s", slot, fnType, term.Type(), in)
 				}
-				term = term.Convert(in)
+				term = converted
 			}
 			argValues[slot] = term
 			i++
@@ -1643,6 +1648,20 @@ func indirectInterface(v reflect.Value) reflect.Value {
 
 // indirectEface is the same as indirectInterface, but only indirects through v if its type
 // is the empty interface and its value is not nil.
+// convertTo converts v to typ if that is possible. Whether it is cannot always be told from the types alone:
+// a slice converts to an array (pointer) only if it is long enough, and reflect panics when it is not.
+func convertTo(v reflect.Value, typ reflect.Type) (converted reflect.Value, ok bool) {
+	if !v.Type().ConvertibleTo(typ) {
+		return v, false
+	}
+	defer func() {
+		if recover() != nil {
+			converted, ok = v, false
+		}
+	}()
+	return v.Convert(typ), true
+}
+
 func indirectEface(v reflect.Value) reflect.Value {
 	if v.Kind() == reflect.Interface && v.Type().NumMethod() == 0 && !v.IsNil() {
 		return v.Elem()
